@@ -5,7 +5,7 @@
    two file control layouts, and non-vacuity examples on a concrete file written
    through the layouts. *)
 From Coq Require Import String List Lia NArith ZArith Bool.
-From ACH Require Import TamperText TamperTextFacts TamperTextLift TruncBytes LayoutFacts NumFacts FileStructFacts.
+From ACH Require Import TamperText TamperTextFacts TamperTextLift TruncBytes TruncCtl LayoutFacts NumFacts FileStructFacts.
 From ACH Require Import Tables C03Obl.
 Import ListNotations.
 Local Open Scope string_scope.
@@ -138,6 +138,16 @@ Proof.
   destruct adv; [apply adv_fctl_tail|apply fctl_tail].
 Qed.
 
+(* an accepted cut inside the control record (third case above, second alternative): if the
+   original entry/addenda count is not zero and its column holds digits, Parse assigns the
+   cut record exactly the values of the original one, the unprotected block count included *)
+Lemma c04_truncation_ctl_identical f c :
+  ascii_records f -> 1 <= c < 94 -> digitsb (column (f_ctl f) 13 21) = true ->
+  fc_count (fl_ctl (skel f)) <> 0%Z ->
+  skel (with_ctl f (cut_line (f_ctl f) c)) = skel f ->
+  parse (fctl_layout (adv_file f)) (cut_line (f_ctl f) c) = parse (fctl_layout (adv_file f)) (f_ctl f).
+Proof. apply truncated_ctl_identical. Qed.
+
 (* ---- non-vacuity: a file written through the layouts ------------------------------------------ *)
 
 Definition bs := bytes_of_string.
@@ -229,3 +239,27 @@ Lemma digit_change_needs_range_refuted :
   let text := bs "09223372036854775807" in
   digitsb text = true /\ set_nth 0 49%N text <> text /\ atoi (set_nth 0 49%N text) = atoi text.
 Proof. vm_compute. repeat split. discriminate. Qed.
+
+(* a debits-only file: the credit total column holds zeros, a cut inside it (columns 43..54)
+   is accepted, the cut line differs from the original line, and the parsed record is
+   identical; a cut one column earlier loses the last digit of the debit total: rejected *)
+Definition td_bctl : recval :=
+  [ ("ServiceClassCode", VI 200); ("EntryAddendaCount", VI 2); ("EntryHash", VI 12104288)
+  ; ("TotalDebitEntryDollarAmount", VI 5000); ("TotalCreditEntryDollarAmount", VI 0)
+  ; ("CompanyIdentification", VS (bs "123456789")); ("ODFIIdentification", VS (bs "12104288")); ("BatchNumber", VI 1) ].
+Definition td_fctl : recval :=
+  [ ("BatchCount", VI 1); ("BlockCount", VI 1); ("EntryAddendaCount", VI 2); ("EntryHash", VI 12104288)
+  ; ("TotalDebitEntryDollarAmountInFile", VI 5000); ("TotalCreditEntryDollarAmountInFile", VI 0) ].
+Definition td_file : fileS :=
+  mkFile (ex_line T1 65)
+    [ mkBatch (render L_BatchHeader tx_hdr) [ mkEntry (render L_EntryDetail tx_e2) [ex_line T7 68] ] (render L_BatchControl td_bctl) ]
+    (render L_FileControl td_fctl).
+
+Lemma td_truncation_example :
+  read_validate T (skel td_file) = ROk /\ digitsb (column (f_ctl td_file) 13 21) = true /\
+  fc_count (fl_ctl (skel td_file)) = 2%Z /\
+  skel (with_ctl td_file (cut_line (f_ctl td_file) 44)) = skel td_file /\
+  cut_line (f_ctl td_file) 44 <> f_ctl td_file /\
+  parse L_FileControl (cut_line (f_ctl td_file) 44) = parse L_FileControl (f_ctl td_file) /\
+  read_validate T (skel (with_ctl td_file (cut_line (f_ctl td_file) 42))) = RFDebit.
+Proof. vm_compute. repeat split; try reflexivity. discriminate. Qed.
